@@ -227,6 +227,10 @@ impl Simulation {
     /// specified target time, whether or not an event was scheduled for that
     /// time.
     pub fn step_until(&mut self, deadline: impl Deadline) -> Result<(), ExecutionError> {
+        if self.is_terminated {
+            return Err(ExecutionError::Terminated);
+        }
+
         let now = self.time.read();
         let target_time = deadline.into_time(now);
         if target_time < now {
@@ -240,6 +244,10 @@ impl Simulation {
     /// Simulation time remains unchanged. The periodicity of the action, if
     /// any, is ignored.
     pub fn process(&mut self, action: Action) -> Result<(), ExecutionError> {
+        if self.is_terminated {
+            return Err(ExecutionError::Terminated);
+        }
+
         action.spawn_and_forget(&self.executor);
         self.run()
     }
@@ -258,6 +266,10 @@ impl Simulation {
         F: for<'a> InputFn<'a, M, T, S>,
         T: Send + Clone + 'static,
     {
+        if self.is_terminated {
+            return Err(ExecutionError::Terminated);
+        }
+
         let sender = address.into().0;
         let fut = async move {
             // Ignore send errors.
@@ -296,6 +308,10 @@ impl Simulation {
         T: Send + Clone + 'static,
         R: Send + 'static,
     {
+        if self.is_terminated {
+            return Err(ExecutionError::Terminated);
+        }
+
         let (reply_writer, mut reply_reader) = slot::slot();
         let sender = address.into().0;
 
@@ -386,6 +402,12 @@ impl Simulation {
         &mut self,
         upper_time_bound: MonotonicTime,
     ) -> Result<Option<MonotonicTime>, ExecutionError> {
+        // Neither the simulation time nor the scheduler queue may change once
+        // the simulation has been terminated.
+        if self.is_terminated {
+            return Err(ExecutionError::Terminated);
+        }
+
         // Function pulling the next action. If the action is periodic, it is
         // immediately re-scheduled.
         fn pull_next_action(scheduler_queue: &mut MutexGuard<SchedulerQueue>) -> Action {
